@@ -295,7 +295,9 @@ def run_c30(tier, replay):
                configurations_total=total, configurations_run=len(lines), inconclusive_cases=len(bad),
                symmetry_representatives_run=sum(1 for l in lines if is_representative(case_of[l["id"]])),
                violating_observations=len(viol), distinct_signatures=sorted({v["sig"] for v in viol}),
-               samples=[dict(case=case_of[l["id"]], argv=l["argv"], obs=l["obs"][:12]) for l in lines[:2]] or [dict(none=True)])
+               samples=[dict(case=case_of[l["id"]], argv=l["argv"], obs=l["obs"][:12]) for l in
+                        sorted(lines, key=lambda l: (-sum(o["kind"] in ("sub", "predef") for o in l["obs"]), l["id"]))[:2]]
+               or [dict(none=True)])
     if bad and rc == 0:
         rc = 2
         print("INCONCLUSIVE property=C30: %d case(s) could not be observed, e.g. %s: %s" % (len(bad), bad[0][0], bad[0][1]))
